@@ -62,6 +62,13 @@ Verdicts(r) ==
              THEN MergeVerdict(p, c, d, e, PairsToFn(r.preds) @@ UnionPreds(1..Len(ops)),
                                ops[r.base].view, ops[r.parents[1]].view, ops[r.parents[2]].view,
                                ToView(r.view), r.nold)
+             ELSE IF r.kind = "nway"
+             (* >= 3 heads reconciled in one call: the last step judged as a pair; the self   *)
+             (* side is the pairwise intermediate's view (itself judged as a pair before),    *)
+             (* renamed by the harness to this call's own copies of the rebased commits       *)
+             THEN MergeVerdict(p, c, d, e, PairsToFn(r.preds) @@ UnionPreds(1..Len(ops)),
+                               ops[r.base].view, ToView(r.selfview), ops[r.other].view,
+                               ToView(r.view), r.nold)
              ELSE "ok"}
   ELSE IF r.op = "walk" THEN
        {WalkVerdict(UnionPreds(AncOps({r.at})), r.start, r.out, r.failed)}
